@@ -795,13 +795,15 @@ func (tk *tokenizer) consumeValueList(endChar byte) []Token {
 		default:
 			if bytes.HasPrefix(tk.src[tk.pos:], []byte("/*")) { // Comment
 				index := bytes.Index(tk.src[tk.pos+2:], []byte("*/"))
-				tk.pos += 2 + index
 				if index == -1 {
+					// unterminated comment: it runs to the end of the input, also for the enclosing blocks
+					tk.pos = len(tk.src)
 					if !tk.skipComments {
 						out = append(out, Comment{stringVal{pos: tokenPos, Value: string(tk.src[tk.previousPos+2:])}})
 					}
 					return out
 				}
+				tk.pos += 2 + index
 				if !tk.skipComments {
 					out = append(out, Comment{stringVal{pos: tokenPos, Value: string(tk.src[tk.previousPos+2 : tk.pos])}})
 				}
